@@ -32,5 +32,10 @@ PLAN = {
         level_text="every model state x beta in {0.5,5,40,1e3} x all (i,j): Hermitian symmetry at on- and off-axis z, 1/z tail at |z|=1e6, sign of Im G_ii, of_tau against the dense definition at 5 tau points incl. both ends, jump and occupancy relations",
         runs=[("san", "hx", "C11", 16, [])], thorough_extra=[("cplx", "hx", "C11", 16, [])],
         rule="BFS over generator histories x betas x all index pairs x 13 z points x 5 tau points"),
+    "C20": dict(
+        engine="histx", technique="explicit-state BFS over addSite/addTerm/preset call histories on a real Lattice against a map/list reference model; invariants evaluated in every state",
+        level_text="all call sequences up to depth 3 (thorough 4) from 7 start layouts over 63 calls (valid, unknown label, out-of-range orbital/spin, mismatched sites, zero amplitudes): accept/reject decision, unchanged-on-reject, every stored term valid, getSite for known/unknown labels, terms by order, copy independence",
+        runs=[("san", "hx", "C20", 8, [])],
+        rule="BFS over call histories, dedup by (site map, sorted term dump); non-trivial = history of >= 2 calls"),
 }
 NOT_APPLICABLE = {}
